@@ -22,7 +22,7 @@ RULE = ("one evaluation = one simulated world: 2-4 twin tasks x 6-14 ops generat
 REAL_STUB = "real: all yastn code; arm A also the real functools.lru_cache container. stub (arm B only): the LRU container (SimLRU, same contract)."
 ASSUMPTIONS = ["BLAS pinned to one thread so floating point results are a function of the call sequence",
                "arm B replaces functools.lru_cache by a contract-equivalent pure-Python table"]
-WALL_CAP = 300
+WALL_CAP = 1200
 CHUNK = 8
 
 WEIGHTS = dict(e1.DEFAULT_WEIGHTS)
